@@ -21,6 +21,10 @@ from . import env, terms
 
 env.import_pyjelly()
 
+import logging  # noqa: E402
+
+logging.getLogger("rdflib").setLevel(logging.CRITICAL)     # rdflib warns about odd IRIs on purpose-built inputs
+
 from pyjelly import jelly  # noqa: E402
 from pyjelly.options import LookupPreset, StreamParameters  # noqa: E402
 from pyjelly.serialize import flows as _flows  # noqa: E402
